@@ -112,7 +112,6 @@ theorem trimEnd_last_pair (e : Pr) {xs : List APos} {p : Pr} (h : xs.getLast? = 
     trimEnd e xs = .ok xs := by
   obtain ⟨ys, rfl⟩ := List.getLast?_eq_some_iff.mp h
   unfold trimEnd
-  rw [if_neg (by simp)]
   simp only [List.reverse_append, List.reverse_cons, List.reverse_nil, List.nil_append,
     List.cons_append]
   rw [List.dropWhile_cons_of_neg (by simp [APos.isPair])]
@@ -127,10 +126,7 @@ theorem trimEnd_head_pair (e : Pr) (p : Pr) (xs : List APos) :
     dropWhile_ne_nil_of_mem (x := .pair p) (by simp) (by simp [q, APos.isPair])
   refine ⟨((APos.pair p :: xs).reverse.dropWhile q).reverse,
     ((APos.pair p :: xs).reverse.takeWhile q).reverse, ?_, ?_, ?_⟩
-  · unfold trimEnd
-    rw [if_neg (by simp)]
-    show (if ((APos.pair p :: xs).reverse.dropWhile q).isEmpty = true then _ else _) = _
-    rw [if_neg (by simpa using hne)]
+  · rfl
   · rw [← List.reverse_append, List.takeWhile_append_dropWhile, List.reverse_reverse]
   · intro x hx
     have := mem_takeWhile_imp (List.mem_reverse.mp hx)
